@@ -64,7 +64,9 @@ def parse(
 
 def parse_file(path: Path | str) -> NixSourceCode:
     """Parse a Nix file from disk with UTF-8 decoding."""
-    path = Path(path)
+    # Anchor relative spellings now: import hops are resolved later, possibly
+    # after the working directory has changed.
+    path = Path(path).absolute()
     source_code = path.read_text(encoding="utf-8")
     with source_path_context(path):
         source = parse(source_code, source_path=path)
